@@ -222,6 +222,32 @@ def gen_cases(ctx):
         if all(m['format'] == 'coo' for m in mats) or rng.random() < 0.5:
             pass
         add({'kind': 'align', 'shape': [nr, nc], 'mats': mats})
+    # --- sparse alignment, bit-exact stream: entries spanning many binades
+    # relative to the dummy scale (tiny entries next to large negative ones)
+    for _ in range(300 if thorough else 30):
+        nr, nc = rng.randint(1, 4), rng.randint(2, 5)
+        big = Fr(rng.randint(1, 2 ** 20)) * Fr(2) ** rng.randint(-4, 40)
+        mats = []
+        for _m in range(rng.randint(1, 3)):
+            ent = []
+            for i in range(nr):
+                for j in range(nc):
+                    if rng.random() < 0.6:
+                        kind = rng.choice(['tiny', 'tiny', 'mid', 'bigneg', 'odd'])
+                        if kind == 'tiny':
+                            v = Fr(rng.randint(-2 ** 30, 2 ** 30)) * Fr(2) ** rng.randint(-90, -40)
+                        elif kind == 'mid':
+                            v = Fr(rng.randint(-999, 999), 2 ** rng.randint(0, 12))
+                        elif kind == 'bigneg':
+                            v = -big * rng.randint(1, 3)
+                        else:
+                            v = Fr(float(Fr(rng.randint(-10 ** 6, 10 ** 6), rng.randint(1, 10 ** 6))))
+                        ent.append([i, j, pair(v)])
+            mats.append({'format': rng.choice(['csr', 'coo']), 'entries': ent})
+        if not any(m['entries'] for m in mats):
+            mats[0]['entries'].append([0, 0, pair(Fr(1, 2 ** 60))])
+            mats[0]['entries'].append([0, 1, pair(-big)])
+        add({'kind': 'align', 'shape': [nr, nc], 'mats': mats, 'exact_stream': True})
     return cases
 
 
@@ -343,13 +369,28 @@ def oracle(c, r):
             keys = [(e[0], e[1]) for e in o['entries']]
             if set(keys) != union or len(keys) != len(union) or not o['same_structure_as_first']:
                 bad.append(('pattern-not-union', ''))
+            bound = align_rounding_bound(c)
             for e in o['entries']:
                 v = frs(e[2])
-                if v is None or v != dense_in.get((e[0], e[1]), Fr(0)):
-                    bad.append(('value-changed', [e[0], e[1]]))
+                w = dense_in.get((e[0], e[1]), Fr(0))
+                if v is None or v != w:
+                    if v is not None and set(keys) == union and abs(v - w) <= bound:
+                        bad.append(('dummy-scale-absorption',
+                                       {'entry': [e[0], e[1]], 'stored': float(w).hex(),
+                                        'returned': float(v).hex()}))
+                    else:
+                        bad.insert(0, ('value-changed', [e[0], e[1]]))
         if len(r['out']) != len(c['mats']):
             bad.append(('count', ''))
     return bad
+
+
+def align_rounding_bound(c):
+    """stated bound of the rounding of (s + n*D) - n*D in binary64:
+    2^-52 * 2 * (n_matrices * D + max|v|), D = 2*|min| + 1"""
+    vals = [Fr(*e[2]) for m in c['mats'] for e in m['entries']] + [Fr(0)]
+    D = 2 * abs(min(vals)) + 1
+    return Fr(1, 2 ** 51) * (len(c['mats']) * D + max(abs(v) for v in vals))
 
 
 def inv_amplification(r, i):
@@ -436,7 +477,10 @@ def coq_items(c, r):
             return lib.coq_list([f'({lib.coq_Z(k_)}, {q(v)})' for k_, v in sorted(d.items())])
         ms = lib.coq_list([sm(m['entries'], True) for m in c['mats']])
         outs = lib.coq_list([sm(o['entries'], False) for o in r['out']])
-        out.append(('0', f'chk_align {lib.coq_Z(nr * nc)} {ms} {outs}'))
+        if c.get('exact_stream'):
+            out.append(('0', f'chk_align_tol {q(align_rounding_bound(c))} {lib.coq_Z(nr * nc)} {ms} {outs}'))
+        else:
+            out.append(('0', f'chk_align {lib.coq_Z(nr * nc)} {ms} {outs}'))
     return out
 
 
@@ -483,6 +527,8 @@ def sig_of(c, what):
         s['eng'] = c['eng']
     if c['kind'] == 'sym':
         s['order'] = 'default' if c['order'] is None else ''.join(map(str, c['order']))
+    if c['kind'] == 'align' and what == 'dummy-scale-absorption':
+        s = {'site': 'align_nnz', 'cause': 'dummy-scale absorption', 'exact_in_binary64': False}
     return s
 
 
@@ -571,6 +617,7 @@ def main(ctx):
             ctx.count('spectrum:' + c['label'])
         if c['kind'] == 'align':
             ctx.count('align_n_matrices:%d' % len(c['mats']))
+            ctx.count('align_stream:' + ('bit-exact' if c.get('exact_stream') else 'dyadic'))
         nontriv = any(x[0] != 0 for row in c.get('a', []) for x in row) or \
             any(m['entries'] for m in c.get('mats', []))
         ctx.case(public_case(c), nontrivial=nontriv,
@@ -598,7 +645,8 @@ def main(ctx):
         n_items, failing, cfail = run_corr(ctx, cases, res)
         ctx.corr = {'cases': len(cases), 'coq_comparisons': n_items, 'disagreements': len(failing),
                     'tolerance': 'exact for a2m/m2a, eigenvalues, kept directions, lte, orient, '
-                                 'align_nnz; 2^-40 * 4 * max(1,|a|) for cross/matmul results; '
+                                 'align_nnz (dyadic stream); 2^-51 * (n*D + max|v|) for the bit-exact align_nnz stream; '
+                                 '2^-40 * 4 * max(1,|a|) for cross/matmul results; '
                                  '2^-40 * 16 * max(1,|1/(1+l)|,|1+l|)^2 for invert_strain'}
         if cfail:
             ctx.notes['corr_compile_failures'] = cfail
@@ -638,6 +686,8 @@ def main(ctx):
                       'theorems of C17/Props.v check against the regenerated gen/TensorIdx.v',
                       'do not check', ', '.join(badn) or 'build', found_input=False,
                       signature={'kind': 'proof-broken'})
+    if ctx.tier == 'thorough' and proof_ok:
+        ctx.coqchk(f'{PID}/Props.v')
     ctx.exhaustive = False
     ctx.notes['exhaustive_part'] = 'all 720 orders x 2 shear conventions for the a2m/m2a round trip'
     return ctx.finish()
